@@ -355,6 +355,27 @@ func c17(c *an.Ctx) {
 		}
 	})
 
+	c.Check("R-POST", "reactive resources of an ended subscription are released: Rerunner.run keeps or releases every fresh computation; Stop releases the current one", 3, func(o *an.O) {
+		ruleFreshComputationKept(c, o)
+		// Stop: under r.mu, a non-nil r.computation is released
+		f2 := c.NeedFunc(rx, "(*Rerunner).Stop")
+		r := f2.Params[0].Name()
+		var good []ssa.Instruction
+		for _, g := range goCallsTo(f2, an.Mod(rx, "node", "release")) {
+			if an.Expr(an.CallOf(g).Args[0]) == "&"+r+".computation.node" {
+				good = append(good, g)
+				o.Site(g)
+			}
+		}
+		b4 := an.NewBlocker(good...)
+		for _, ci := range an.CondIfs(f2, func(v ssa.Value) bool { return an.Expr(v) == "("+r+".computation != nil)" }) {
+			b4.AddEdge(ci.If.Block(), ci.False)
+		}
+		if e := an.ReachableAvoiding(f2, nil, b4, an.Exits(f2, false)); e != nil {
+			o.FailAt(e, "Rerunner.Stop can return without releasing a non-nil computation")
+		}
+	})
+
 	c.Check("R-POST", "conn.ServeJSONSocket defers closeSubscriptions before the first read", 2, func(o *an.O) {
 		fn := c.NeedFunc(gq, "(*conn).ServeJSONSocket")
 		var d []ssa.Instruction
@@ -713,6 +734,9 @@ func c02(c *an.Ctx) {
 			}
 		}
 	})
+
+	// the delta that is sent must itself be decodable: the diff/merge agreement rules (C03) are part of convergence
+	c03(c)
 
 	c.Check("R-LOCK", "closeSubscription: Stop of the looked-up runner and its removal in one critical section of c.mu", 2, func(o *an.O) {
 		fn := c.NeedFunc(gq, "(*conn).closeSubscription")
